@@ -719,8 +719,56 @@ func (g *c12) hashing(n int) {
 	}
 }
 
+// documents whose context lives behind the repository's own document loader, served by an origin that answers with
+// pages naming each other (or themselves) as rel="alternate": the load must end with an error after a bounded number of requests
+func (g *c12) alternateLoops() {
+	for _, shape := range []string{"self", "pair", "chain-into-loop", "long-chain", "chain-to-document"} {
+		shape := shape
+		o := &scriptedOrigin{docs: map[string]*orgEntry{}, budget: 2000}
+		page := func(i int) string { return fmt.Sprintf("https://loop.example/page%d", i) }
+		switch shape {
+		case "self":
+			o.docs[page(0)] = &orgEntry{alt: page(0), policy: "max-age=3600"}
+		case "pair":
+			o.docs[page(0)] = &orgEntry{alt: page(1), policy: "no-store"}
+			o.docs[page(1)] = &orgEntry{alt: page(0), policy: "max-age=3600"}
+		case "chain-into-loop":
+			o.docs[page(0)] = &orgEntry{alt: page(1), policy: "none"}
+			o.docs[page(1)] = &orgEntry{alt: page(2), policy: "none"}
+			o.docs[page(2)] = &orgEntry{alt: page(1), policy: "none"}
+		case "long-chain":
+			for i := 0; i < 40; i++ {
+				o.docs[page(i)] = &orgEntry{alt: page(i + 1), policy: "max-age=0"}
+			}
+			o.docs[page(40)] = &orgEntry{ver: 1, policy: "none"}
+		default:
+			o.docs[page(0)] = &orgEntry{alt: page(1), policy: "none"}
+			o.docs[page(1)] = &orgEntry{alt: page(2), policy: "none"}
+			o.docs[page(2)] = &orgEntry{ver: 1, policy: "none"}
+		}
+		loader, _ := loaderCfg{cacheMode: "memory"}.build(o)
+		g.probe("alternate-links", J{"shape": shape}, []string{"loader"}, func() (any, error) {
+			doc := fmt.Sprintf(`{"@context": %q, "@id": "urn:a", "x": "v"}`, page(0))
+			mz, err := merklize.MerklizeJSONLD(context.Background(), strings.NewReader(doc), merklize.WithDocumentLoader(loader))
+			o.mu.Lock()
+			n := o.reqs
+			o.mu.Unlock()
+			if n > 100 {
+				return nil, fmt.Errorf("%w: %d requests for one context - alternate links are followed without bound (the harness's origin stopped answering)", errHang, n)
+			}
+			if err != nil {
+				return nil, err
+			}
+			return mz, nil
+		})
+	}
+}
+
 func genC12(out *Out, r *Rng, tier string, n int, shard int) {
 	g := &c12{out: out, r: r}
+	if shard == 0 {
+		g.alternateLoops()
+	}
 	g.documents(n)
 	g.binaries(8 * n)
 	g.verifiers(n)
